@@ -14,7 +14,7 @@
 (* Cases come from the real compiler: the same source compiled with        *)
 (* labels kept and with labels removed under otherwise equal options.      *)
 (***************************************************************************)
-EXTENDS Integers, Sequences, FiniteSets, TLC, Json
+EXTENDS Integers, Sequences, FiniteSets, TLC, Json, SequencesExt
 
 Cases == JsonDeserialize("cases.json")
 
@@ -114,6 +114,29 @@ Judge == /\ verdict = ""
 Report == /\ verdict \notin {"", "reported"} /\ PrintT(<<"VERDICT", tid, verdict>>)
           /\ verdict' = "reported" /\ UNCHANGED tid
 Spec == Init /\ [][Judge \/ Report]_<<tid, verdict>>
+
+(***************************************************************************)
+(* Specification -> code: every small text over compiler-shaped lines and  *)
+(* names that contain one another (fa, fa.b, faend, b), with what Resolve and *)
+(* ResolveRel say about it, written to gen.json; lib/checks_lang.py feeds  *)
+(* each text to the real remove_labels in both modes and compares.         *)
+(* (configuration: SPECIFICATION GenSpec; GenLen = longest text)           *)
+(***************************************************************************)
+GenNames == {"fa", "fa.b", "faend", "b"}
+GenLen == 4
+GenLines ==
+  {[lab |-> n, toks |-> <<>>, tgt |-> ""] : n \in GenNames}
+  \cup {[lab |-> "", toks |-> <<"j", n>>, tgt |-> n] : n \in GenNames}
+  \cup {[lab |-> "", toks |-> <<"jal", n>>, tgt |-> n] : n \in GenNames}
+  \cup {[lab |-> "", toks |-> <<"beq", "r0", "0", n>>, tgt |-> n] : n \in GenNames}
+  \cup {[lab |-> "", toks |-> <<"yield">>, tgt |-> ""]}
+GenValid(t) == /\ \A n \in GenNames : DefCount(t, n) <= 1
+               /\ ~UndefinedTarget(t)
+               /\ \E k \in 1..Len(t) : t[k].tgt # ""
+GenTexts == {t \in UNION {[1..n -> GenLines] : n \in 2..GenLen} : GenValid(t)}
+GenAll == SetToSeq({[kept |-> t, abs |-> Resolve(t), rel |-> ResolveRel(t)] : t \in GenTexts})
+GenInit == tid = 0 /\ verdict = "" /\ JsonSerialize("gen.json", GenAll)
+GenSpec == GenInit /\ [][FALSE]_<<tid, verdict>>
 
 \* self test of the specification itself
 T1 == << [lab |-> "", toks |-> <<"j", "b">>, tgt |-> "b", fn |-> ""], [lab |-> "a", toks |-> <<>>, tgt |-> ""], [lab |-> "", toks |-> <<"yield">>, tgt |-> ""],
